@@ -142,6 +142,7 @@ class LabReplay:
             sl = self.arg0(objs, n, r)
             if isinstance(sl, self.pp.PlateSlicer):
                 cache[ck] = (objs[n], sl)
+                self.__dict__.setdefault("slice_sel", {})[id(sl)] = (sl, repr(sl.slices), repr(getattr(sl, "item", None)))
         if isinstance(sl, self.pp.PlateSlicer):
             # every other slice is looked at before it is used, as a user inspecting it would (cached views must not matter)
             self.looked = not getattr(self, "looked", False)
@@ -424,6 +425,11 @@ class LabReplay:
                 if not any(a.plate is o for o in objs.values()):
                     self.report("C04", "slice_repointed", key,
                                 f"{out.call}: the slice passed in now refers to another plate object", ev, ctx["pre_key"])
+                was = self.__dict__.get("slice_sel", {}).get(id(a))
+                if was is not None and was[0] is a and (repr(a.slices), repr(getattr(a, "item", None))) != was[1:]:
+                    self.report("C04", "slice_selection_changed", key,
+                                f"{out.call}: the slice passed in selected {was[1]} and now selects {a.slices!r}", ev, ctx["pre_key"])
+                    self.slice_sel[id(a)] = (a, repr(a.slices), repr(getattr(a, "item", None)))     # report once
         for n, o in out.new.items():
             if o is objs.get(n) and ev["res"] == "ok" and ctx["spec_post"][n] != ctx["spec_pre"][n]:
                 self.report("C04", "returned_argument", key, f"{out.call}: returned the argument object itself", ev, ctx["pre_key"])
